@@ -719,7 +719,7 @@ theorem cmap4AddDelta_no_trap (x d : Int) (hx : U16 x) (hd : I16 d) : (cmap4AddD
   have : i32.add x d = some (x + d) := by simp only [IntTy.add]; apply chk_i32; omega
   simp [cmap4AddDelta, this]
 
-theorem getElem?_all {P : Int → Prop} (l : List Int) (h : ∀ c ∈ l, P c) (i : Nat) (v : Int)
+theorem getElemOpt_all {P : Int → Prop} (l : List Int) (h : ∀ c ∈ l, P c) (i : Nat) (v : Int)
     (hv : l[i]? = some v) : P v := h v (List.mem_of_getElem? hv)
 
 theorem cmap4Lookup_no_trap (deltas ros gids : List Int) (cp i st : Int)
@@ -729,8 +729,8 @@ theorem cmap4Lookup_no_trap (deltas ros gids : List Int) (cp i st : Int)
   unfold cmap4Lookup
   split
   · rename_i d ro hde hro
-    have hdI := getElem?_all deltas hd _ _ hde
-    have hroU := getElem?_all ros hr _ _ hro
+    have hdI := getElemOpt_all deltas hd _ _ hde
+    have hroU := getElemOpt_all ros hr _ _ hro
     have hlt : i.toNat < ros.length := by
       have := List.getElem?_eq_some_iff.mp hro; exact this.1
     split
@@ -741,7 +741,7 @@ theorem cmap4Lookup_no_trap (deltas ros gids : List Int) (cp i st : Int)
       split
       · rfl
       · rename_i gid hgid
-        have hgU := getElem?_all gids hg _ _ hgid
+        have hgU := getElemOpt_all gids hg _ _ hgid
         split
         · obtain ⟨v, hv⟩ := Option.isSome_iff_exists.mp (cmap4AddDelta_no_trap gid d hgU hdI); simp [hv]
         · rfl
@@ -771,7 +771,7 @@ theorem cmap4MapGo_no_trap (starts ends deltas ros gids : List Int) (cp : Int)
       split
       · rfl
       · rename_i st hst
-        have hstU := getElem?_all starts hs _ _ hst
+        have hstU := getElemOpt_all starts hs _ _ hst
         unfold U16 at hstU
         split
         · exact ih lo ((lo + hi) / 2) hlo (by omega)
